@@ -25,7 +25,7 @@ RULE = (
 ASSUMPTIONS = ["dense reference (n<=8) / Pauli reference (any n); measure_x / measure_y are modelled as the code documents them: "
                "basis change followed by a Z measurement (the tableau is left in the rotated frame)"]
 REQUIRED_CLASSES = {"walk": ["random_measurement", "size_change", "nonzero_signs_at_insert", "remove_entangled",
-                             "remove_product", "tensor", "swap_with_signs", "run_circuit", "read_only_query"]}
+                             "remove_product", "tensor", "swap_with_signs", "run_circuit", "read_only_query", "fork"]}
 
 MAXQ = 8
 G1 = ["H", "P", "Pdag", "X", "Y", "Z"]
@@ -161,6 +161,7 @@ def check_walk(case, sub="walk", start=None):
     wrapper = Stabilizer(tab) if use_class else None
     M = DenseModel(v, case["n0"])
     cl = set()
+    forks = []
     saw_random = saw_size = False
     nontrivial = False
 
@@ -359,6 +360,17 @@ def check_walk(case, sub="walk", start=None):
             cl.add("remove_product" if allprod else "remove_entangled")
             saw_size = True
             cl.add("size_change")
+        elif op == "fork":
+            # a second tableau built from this one with the constructor; it is kept aside and must keep denoting the state of
+            # this moment whatever happens to the walked tableau afterwards (and the other way round)
+            if n == 0 or len(M.cands) != 1:
+                continue
+            from graphiq.backends.stabilizer.clifford_tableau import CliffordTableau as _CT
+
+            site, icls = "fork", "plain"
+            forks.append((guarded(sub, icls, _CT, cur()), M.cands[0].copy(), n))
+            del forks[:-3]
+            cl.add("fork")
         elif op == "query":
             # read-only questions about the tableau (conversion to a stabilizer tableau, canonical form, equality with a copy):
             # they must not change the tableau that is walked on
@@ -418,6 +430,9 @@ def check_walk(case, sub="walk", start=None):
         else:
             raise ValueError(op)
         verify(step, site, icls)
+        for ft, fv, fn in forks:
+            if ft.n_qubits != fn or rp.clifford_tableau_problems(ft) or not rp.denotes(ft, fv, fn):
+                raise Violation(sub, "copy-aliased", site, icls, "after %s a tableau built earlier with CliffordTableau(other) no longer denotes the state it was built from" % (step,))
         if saw_random and saw_size and op in ("g1", "g2"):
             nontrivial = True
     cl.add("api:class" if use_class else "api:func")
@@ -606,6 +621,7 @@ def st_step(large=False):
         st.tuples(st.just("reset"), st.integers(0, 2), i, st.integers(0, 1), st.integers(0, 2), seed),
         st.tuples(st.just("circ"), gates, st.integers(0, 1)),
         st.tuples(st.just("query"), st.integers(0, 1)),
+        st.tuples(st.just("fork")),
     ]
     if not large:
         opts += [
